@@ -276,6 +276,9 @@ func (s Server) Serve(c context.Context, conn network.Conn) (err error) {
 			} else {
 				err = req.ReadLimitBody(&ctx.Request, zr, s.MaxRequestBodySize, s.GetOnly, !s.DisablePreParseMultipartForm)
 			}
+		} else {
+			// the header stage failed: ReadHeader keeps the method of the request line it had read
+			isHead = ctx.Request.Header.IsHead()
 		}
 
 		if s.EnableTrace {
